@@ -6,6 +6,7 @@ import VlsModel.Gen.FnChannelOic
 import VlsModel.Gen.FnChannelCommit
 import VlsModel.Gen.FnSimpleDecode
 import VlsModel.Gen.FnTxInfo2
+import VlsModel.Model.Bolt3Parse
 import VlsModel.Gen.FnFilterC04
 import VlsModel.Model.Bolt3Filter
 import VlsModel.Lemmas.FnGen
@@ -793,5 +794,172 @@ theorem C04_fn_commitment_info2_new_model (sort : List HTLCInfo2 → List HTLCIn
   simp only [C04_fn_commitment_info2_new, habs, Bolt3.Info2.mk']
 
 end Info2
+
+/-! ## Round 9: the five `handle_*_output` functions of `tx.rs` (what happens after a script template matched), bodies
+    from the current source, proved equal to the model's `handleParsed` followed by `Info.apply`
+
+`Gen/FnTxInfo.lean` now also holds `handle_to_broadcaster_output`, `handle_to_countersigner_delayed_output`,
+`handle_received_htlc_output`, `handle_offered_htlc_output`, `handle_anchor_output`.  Externals: `PublicKey::from_slice`
+(`pk`), the two funding keys of the signer, the value of `ANCHOR_SAT` (instantiated with the extracted `Gen.Bolt3.anchorSat`).
+Each theorem: *accepts or refuses exactly like the model, and the accumulator it returns abstracts (`absInfo`) to the
+model's* — on **every** parsed tuple (negative / oversized delays, non-point keys, wrong hash width, wrong anchor value,
+foreign anchor key, a second to_local / to_remote), not only on canonical scripts.  Model and code differ only where
+the theorem says so: the anchor counters are `u16` (the 65536th anchor of one side is an overflow panic in the code). -/
+
+section Handle
+open Gen.FnTxInfo
+
+def toN (b : List UInt8) : List Nat := b.map (·.toNat)
+
+theorem C04_fn_handle_to_broadcaster_output {A P : Type} [DecidableEq P] (pk : List Nat → Option P) (bF cF : P)
+    (g : CommitmentInfo A P) {SB : Type} (out : TxOut SB) (rev delayed : List UInt8) (delay : Int) :
+    (CommitmentInfo.handle_to_broadcaster_output pk g out (toN rev, delay, toN delayed)).toOption.map absInfo
+      = (Bolt3.handleParsed (fun b => pk (toN b)) bF cF out.value (.toBroadcaster rev delay delayed)).bind (absInfo g).apply := by
+  unfold CommitmentInfo.handle_to_broadcaster_output Bolt3.handleParsed Bolt3.Info.apply
+  simp only [C04_fn_has_to_broadcaster, Gen.Bolt3.maxDelay]
+  rcases Option.eq_none_or_eq_some (pk (toN delayed)) with hd | ⟨dk, hd⟩ <;>
+  rcases Option.eq_none_or_eq_some (pk (toN rev)) with hr | ⟨rk, hr⟩ <;>
+  cases hb : (absInfo g).hasBc <;> by_cases h1 : delay < 0 <;> by_cases h2 : delay > 2016 <;>
+      simp [hd, hr, h1, h2, Rs.okOr, Rs.fail, Except.toOption, absInfo, bind, Except.bind, pure, Except.pure] <;> simp_all [absInfo]
+
+theorem C04_fn_handle_to_countersigner_delayed_output {A P : Type} [DecidableEq P] (pk : List Nat → Option P) (bF cF : P)
+    (g : CommitmentInfo A P) {SB : Type} (out : TxOut SB) (key : List UInt8) :
+    (CommitmentInfo.handle_to_countersigner_delayed_output pk g out (toN key)).toOption.map absInfo
+      = (Bolt3.handleParsed (fun b => pk (toN b)) bF cF out.value (.toCountersignerDelayed key)).bind (absInfo g).apply := by
+  unfold CommitmentInfo.handle_to_countersigner_delayed_output Bolt3.handleParsed Bolt3.Info.apply
+  simp only [C04_fn_has_to_countersigner]
+  rcases Option.eq_none_or_eq_some (pk (toN key)) with hd | ⟨dk, hd⟩ <;>
+  cases hb : (absInfo g).hasCs <;>
+      simp [hd, Rs.okOr, Rs.fail, Except.toOption, absInfo, bind, Except.bind, pure, Except.pure] <;> simp_all [absInfo]
+
+theorem C04_fn_handle_received_htlc_output {A P : Type} [DecidableEq P] (pk : List UInt8 → Option P) (bF cF : P)
+    (g : CommitmentInfo A P) {SB : Type} (out : TxOut SB) (a b payHash c : List UInt8) (cltv : Int) :
+    (CommitmentInfo.handle_received_htlc_output g out (toN a, toN b, toN payHash, toN c, cltv)).toOption.map absInfo
+      = (Bolt3.handleParsed pk bF cF out.value (.received a b payHash c cltv)).bind (absInfo g).apply := by
+  unfold CommitmentInfo.handle_received_htlc_output Bolt3.handleParsed Bolt3.Info.apply
+  by_cases h1 : payHash.length = 20 <;> by_cases h2 : cltv < 0 <;>
+    simp [toN, h1, h2, Gen.Bolt3.paymentHashHashLen, Rs.fail, Except.toOption, absInfo, bind, Except.bind, pure, Except.pure]
+
+theorem C04_fn_handle_offered_htlc_output {A P : Type} [DecidableEq P] (pk : List UInt8 → Option P) (bF cF : P)
+    (g : CommitmentInfo A P) {SB : Type} (out : TxOut SB) (a b c payHash : List UInt8) :
+    (CommitmentInfo.handle_offered_htlc_output g out (toN a, toN b, toN c, toN payHash)).toOption.map absInfo
+      = (Bolt3.handleParsed pk bF cF out.value (.offered a b c payHash)).bind (absInfo g).apply := by
+  unfold CommitmentInfo.handle_offered_htlc_output Bolt3.handleParsed Bolt3.Info.apply
+  by_cases h1 : payHash.length = 20 <;>
+    simp [toN, h1, Gen.Bolt3.paymentHashHashLen, Rs.fail, Except.toOption, absInfo, bind, Except.bind, pure, Except.pure]
+
+theorem C04_fn_handle_anchor_output {A P S : Type} [DecidableEq P] (pk : List Nat → Option P)
+    (cpk : S → Option (ChannelPublicKeys P)) (hk : S → ChannelPublicKeys P)
+    (g : CommitmentInfo A P) (keys : S) {SB : Type} (out : TxOut SB) (key : List UInt8) (cp : ChannelPublicKeys P)
+    (hcp : cpk keys = some cp)
+    (hb : g.to_broadcaster_anchor_count < 65535) (hc : g.to_countersigner_anchor_count < 65535) :
+    (CommitmentInfo.handle_anchor_output pk cpk hk Gen.Bolt3.anchorSat g keys out (toN key)).toOption.map absInfo
+      = (Bolt3.handleParsed (fun b => pk (toN b))
+            (if g.is_counterparty_broadcaster then cp.funding_pubkey else (hk keys).funding_pubkey)
+            (if g.is_counterparty_broadcaster then (hk keys).funding_pubkey else cp.funding_pubkey)
+            out.value (.anchor key)).bind (absInfo g).apply := by
+  unfold CommitmentInfo.handle_anchor_output Bolt3.handleParsed Bolt3.Info.apply
+  have hb' : g.to_broadcaster_anchor_count + 1 ≤ Rs.U16_MAX := by simp [Rs.U16_MAX]; omega
+  have hc' : g.to_countersigner_anchor_count + 1 ≤ Rs.U16_MAX := by simp [Rs.U16_MAX]; omega
+  rcases Option.eq_none_or_eq_some (pk (toN key)) with hd | ⟨dk, hd⟩
+  · simp [hd, Rs.okOr, Rs.fail, Except.toOption, bind, Except.bind]
+  · cases hbr : g.is_counterparty_broadcaster <;>
+    by_cases hv : out.value = Gen.Bolt3.anchorSat <;>
+    by_cases e1 : dk = cp.funding_pubkey <;> by_cases e2 : dk = (hk keys).funding_pubkey <;>
+      simp [hd, hcp, hbr, hv, e1, e2, Rs.okOr, Rs.unwrap, Rs.uadd, hb', hc', Rs.fail, Except.toOption, absInfo, bind,
+            Except.bind, pure, Except.pure] <;> simp_all [absInfo]
+
+
+/-- the `u16` counter: the 65536th anchor of the broadcaster's side is an overflow panic in the code (the model counts in `Nat`) -/
+example : CommitmentInfo.handle_anchor_output (Address := Unit) (fun l => some l.length) (fun (_ : Unit) => some ⟨3⟩) (fun _ => ⟨4⟩)
+    Gen.Bolt3.anchorSat { CommitmentInfo.new true with to_broadcaster_anchor_count := 65535 } () (⟨330, ()⟩ : TxOut Unit) [1, 2, 3] = .error .overflow := rfl
+example : (CommitmentInfo.handle_anchor_output (Address := Unit) (fun l => some l.length) (fun (_ : Unit) => some ⟨3⟩) (fun _ => ⟨4⟩)
+    Gen.Bolt3.anchorSat (CommitmentInfo.new true) () (⟨330, ()⟩ : TxOut Unit) [1, 2, 3]).toOption.map (·.to_broadcaster_anchor_count) = some 1 := rfl
+example : CommitmentInfo.handle_to_broadcaster_output (Address := Unit) (fun l => some l.length) (CommitmentInfo.new true) (⟨5, ()⟩ : TxOut Unit) ([1], 2017, [2])
+    = .error (.err "script-format") := rfl
+
+end Handle
+
+/-! ### `CommitmentInfo::handle_output` itself: the dispatch on the script_pubkey kind, the p2wsh pre-checks, the template
+    attempts in the source's order, the call of the matching `handle_*_output` — body from the current source.
+    (`C04_gen_classify` pins the same function textually and ties the *templates*; here the control flow is the kernel's.) -/
+
+section HandleOutput
+open Gen.FnTxInfo
+variable {A P S CS SB : Type} [DecidableEq P] [DecidableEq SB]
+  (isWpkh isWsh : SB → Bool) (isAnchors : CS → Bool) (addrOf : SB → Option A) (scriptOf : List Nat → SB) (toWsh : SB → SB)
+  (pBc : SB → Option (List UInt8 × Int × List UInt8))
+  (pRecv : SB → Bool → Option (List UInt8 × List UInt8 × List UInt8 × List UInt8 × Int))
+  (pOff : SB → Bool → Option (List UInt8 × List UInt8 × List UInt8 × List UInt8))
+  (pAnchor pCsd : SB → Option (List UInt8))
+  (pk : List Nat → Option P) (cpk : S → Option (ChannelPublicKeys P)) (hk : S → ChannelPublicKeys P)
+
+/-- the template attempts of `handle_output` in the source's order, as one `Option Parsed` (first success wins;
+    the delayed to_remote template is only tried with anchors) -/
+def parsedOf (anchors : Bool) (sc : SB) : Option Bolt3.Parsed :=
+  match pBc sc with
+  | some (r, d, k) => some (.toBroadcaster r d k)
+  | none =>
+  match pRecv sc anchors with
+  | some (a, b, h, c, t) => some (.received a b h c t)
+  | none =>
+  match pOff sc anchors with
+  | some (a, b, c, h) => some (.offered a b c h)
+  | none =>
+  match pAnchor sc with
+  | some k => some (.anchor k)
+  | none => if anchors then (pCsd sc).map .toCountersignerDelayed else none
+
+/-- the generated `handle_output` with byte-valued parsers behind the parse externals -/
+abbrev handleOutputGen (g : CommitmentInfo A P) (keys : S) (setup : CS) (out : TxOut SB) (ws : List Nat) :=
+  CommitmentInfo.handle_output isWpkh isAnchors addrOf isWsh scriptOf toWsh
+    (fun s => (pBc s).map fun (r, d, k) => (toN r, d, toN k)) pk
+    (fun s a => (pRecv s a).map fun (a, b, h, c, t) => (toN a, toN b, toN h, toN c, t))
+    (fun s a => (pOff s a).map fun (a, b, c, h) => (toN a, toN b, toN c, toN h))
+    (fun s => (pAnchor s).map toN) cpk hk Gen.Bolt3.anchorSat (fun s => (pCsd s).map toN) g keys setup out ws
+
+theorem C04_fn_handle_output (g : CommitmentInfo A P) (keys : S) (setup : CS) (out : TxOut SB) (ws : List Nat)
+    (cp : ChannelPublicKeys P) (hcp : cpk keys = some cp)
+    (hb : g.to_broadcaster_anchor_count < 65535) (hc : g.to_countersigner_anchor_count < 65535)
+    (haddr : isWpkh out.script_pubkey = true → (addrOf out.script_pubkey).isSome = true) :
+    (handleOutputGen isWpkh isWsh isAnchors addrOf scriptOf toWsh pBc pRecv pOff pAnchor pCsd pk cpk hk g keys setup out ws).toOption.map absInfo
+    = (if isWpkh out.script_pubkey then (if isAnchors setup then none else some (Bolt3.Role.toCs out.value))
+       else if isWsh out.script_pubkey then
+         (if ws.isEmpty then none else if out.script_pubkey ≠ toWsh (scriptOf ws) then none
+          else (parsedOf pBc pRecv pOff pAnchor pCsd (isAnchors setup) (scriptOf ws)).bind
+                 (Bolt3.handleParsed (fun b => pk (toN b))
+                    (if g.is_counterparty_broadcaster then cp.funding_pubkey else (hk keys).funding_pubkey)
+                    (if g.is_counterparty_broadcaster then (hk keys).funding_pubkey else cp.funding_pubkey) out.value))
+       else none).bind (absInfo g).apply := by
+  unfold handleOutputGen CommitmentInfo.handle_output
+  by_cases h1 : isWpkh out.script_pubkey = true
+  · have ha := haddr h1
+    cases han : isAnchors setup <;> cases hcs : (absInfo g).hasCs <;>
+      simp [h1, han, C04_fn_has_to_countersigner, hcs, Rs.fail, Except.toOption, Bolt3.Info.apply, pure, Except.pure] <;>
+      simp_all [absInfo]
+  · by_cases h2 : isWsh out.script_pubkey = true
+    · by_cases h3 : ws.isEmpty = true
+      · simp [h1, h2, h3, Rs.fail, Except.toOption]
+      · by_cases h4 : out.script_pubkey = toWsh (scriptOf ws)
+        · simp only [h1, h2, h3, Bool.false_eq_true, if_false, if_true, ← h4, bne_self_eq_false, ne_eq, not_true_eq_false]
+          unfold parsedOf
+          rcases hbc : pBc (scriptOf ws) with _ | ⟨r, d, k⟩
+          · rcases hrc : pRecv (scriptOf ws) (isAnchors setup) with _ | ⟨a, b, h, c, t⟩
+            · rcases hof : pOff (scriptOf ws) (isAnchors setup) with _ | ⟨a, b, c, h⟩
+              · rcases han : pAnchor (scriptOf ws) with _ | k
+                · cases hanc : isAnchors setup
+                  · simp [Rs.fail, Except.toOption]
+                  · rcases hcsd : pCsd (scriptOf ws) with _ | k
+                    · simp [Rs.fail, Except.toOption]
+                    · simpa using C04_fn_handle_to_countersigner_delayed_output pk _ _ g out k
+                · simpa using C04_fn_handle_anchor_output pk cpk hk g keys out k cp hcp hb hc
+              · simpa using C04_fn_handle_offered_htlc_output (fun b => pk (toN b)) _ _ g out a b c h
+            · simpa using C04_fn_handle_received_htlc_output (fun b => pk (toN b)) _ _ g out a b h c t
+          · simpa using C04_fn_handle_to_broadcaster_output pk _ _ g out r k d
+        · have : (out.script_pubkey != toWsh (scriptOf ws)) = true := by simpa using h4
+          simp [h1, h2, h3, this, h4, Rs.fail, Except.toOption]
+    · simp [h1, h2, Rs.fail, Except.toOption]
+
+end HandleOutput
 
 end VlsModel.Props.C04Fn
